@@ -237,8 +237,11 @@ class BaseFileLock(abc.ABC):
             except:  # noqa
                 _logger.exception("Failed to release lock %s on %s", lid, fn)
             else:
-                self._lock_counter = 0
                 _logger.info('Lock %s released on %s', lid, fn)
+            # Either way the descriptor is gone and the lock isn't held
+            # anymore, a leftover count would keep the next holder's
+            # release() from ever unlocking
+            self._lock_counter = 0
 
         for _ in range(levels):
             try:
